@@ -78,6 +78,17 @@ func runStartFault(w *tr.Writer, seed uint64, idx int) {
 	}
 	w.Case(fmt.Sprintf("SF%d", idx), "loopstart", "proto="+proto, "loops="+tr.I(loops), "reuseport="+tr.B(reuseport),
 		"client="+tr.B(client), "fault="+name, "index="+tr.I(index), "kind="+kind, "focus=startfault", "seed="+tr.U64(seed), "idx="+tr.I(idx))
+	if !client {
+		// the model of the start sequence (Model/Start.v) is given the configuration and the failing call
+		nlis := 1
+		if addr2 != "" {
+			nlis = 2
+		}
+		// (createListeners: SO_REUSEPORT mode is dropped when a Unix-domain address is among the listeners and
+		// forced when a UDP address is)
+		eff := proto == "udp" || (reuseport && proto != "unix" && addr2 == "")
+		w.Op(tr.L("start", tr.B(eff), tr.I(loops), tr.I(nlis), name, tr.I(index)))
+	}
 	h := &bootOnly{booted: make(chan struct{})}
 	done := make(chan error, 1)
 	started := false
@@ -146,6 +157,18 @@ func runStartFault(w *tr.Writer, seed uint64, idx int) {
 		w.Fail("fd-not-owned", "goroutine-left-polling", fmt.Sprintf("%d goroutine(s) of the framework are still inside Poller.Polling after Run / Client.Stop returned (start in which %s #%d %s)", left, name, index, kind))
 	}
 	rec.mu.Lock()
+	if !client {
+		// what the descriptor ledger saw, in the model's terms
+		ret := "failed"
+		if started {
+			ret = "started"
+		}
+		w.Obs(tr.L("ret", ret))
+		w.Obs(tr.L("created", tr.I(len(rec.sockets)), tr.I(len(rec.epfds)), tr.I(len(rec.efds))))
+		w.Obs(tr.L("closes", tr.I(rec.nCloses)))
+		w.Obs(tr.L("left", tr.I(len(rec.owned))))
+		w.Obs(tr.L("strayclose", tr.I(rec.nStray)))
+	}
 	hit := rec.startFaultHit
 	if hit && !started && err == nil && !client {
 		w.Fail("engine-start", "failure-swallowed", fmt.Sprintf("%s #%d failed with %s during start but Run returned nil", name, index, kind))
